@@ -5,6 +5,7 @@ import (
 	"encoding/hex"
 	"fmt"
 	"io"
+	"os"
 	"math/rand"
 	"sort"
 	"strconv"
@@ -188,6 +189,9 @@ func errClass(err error) string {
 		return "err-eof"
 	case strings.Contains(m, "couldn't find roots"):
 		return "noroots"
+	}
+	if os.Getenv("VERIF_ERRTEXT") != "" {
+		fmt.Fprintln(os.Stderr, "ERRTEXT:", m)
 	}
 	return "err"
 }
@@ -459,7 +463,15 @@ func (w *World) exec(t []string) string {
 	case "refbalance":
 		return w.refBalance()
 	case "mem":
-		st, err := gkvlite.NewStoreEx(nil, w.callbacks())
+		// a memory-only store is one opened on a nil file: the untyped nil, or a nil pointer of a
+		// file type (`var f *os.File; NewStore(f)` - what NewStoreEx's reflect test is for).  Both
+		// spellings are used (which one: by store number and callback configuration, so that a
+		// replay repeats it).
+		var nofile gkvlite.StoreFile
+		if (atoi(t[1])+w.cfg)%2 == 1 {
+			nofile = (*memfile.File)(nil)
+		}
+		st, err := gkvlite.NewStoreEx(nofile, w.callbacks())
 		if err != nil {
 			return errClass(err)
 		}
@@ -1003,6 +1015,14 @@ func (w *World) exec(t []string) string {
 		}
 		return shapeOf(w.stores[atoi(t[1])], c)
 	case "appendcheck":
+		if strings.HasPrefix(t[1], "onto:") {
+			// `appendcheck onto:<store>:<flushEvery>` (the model answers every appendcheck with ok)
+			f := strings.Split(t[1], ":")
+			if len(f) != 3 {
+				return "bad-op"
+			}
+			return w.copyOnto(atoi(f[1]), atoi(f[2]))
+		}
 		return w.appendCheck(atoi(t[1]))
 	case "rmark": // forget the reads made so far
 		if mf := w.files[atoi(t[1])]; mf != nil {
@@ -1194,4 +1214,39 @@ func openDigest(w *World, img []byte) (res string) {
 		return "corrupt"
 	}
 	return "ok " + d
+}
+
+// copyOnto runs CopyTo onto a destination file that already holds a store (a private copy of the
+// source's own file as it is now) and evaluates C09's predicate on that destination: C09 speaks
+// about every file the package writes, so the copy's writes must start at or beyond the end of
+// the destination's last root record and leave everything below untouched.  Whether the copy
+// succeeds is not the subject here.
+func (w *World) copyOnto(sid, fe int) string {
+	st := w.stores[sid]
+	if st == nil {
+		return "ok"
+	}
+	var orig []byte
+	if fid, ok := w.sfile[sid]; ok {
+		if src := w.files[fid]; src != nil {
+			orig = src.Bytes()
+		}
+	}
+	clone := memfile.FromBytes(append([]byte(nil), orig...))
+	clone.Tag = "copydst"
+	d0 := int64(0)
+	if r := lastRootRecord(orig); r != nil {
+		d0 = int64(bytes.LastIndex(orig, r)) + int64(len(r))
+	}
+	dst, _ := st.CopyTo(clone, fe)
+	if dst != nil {
+		dst.Close()
+	}
+	if r := appendCheckLog(clone, d0); r != "ok" {
+		return r
+	}
+	if now := clone.Bytes(); int64(len(now)) < d0 || !bytes.Equal(now[:d0], orig[:d0]) {
+		return "bad:durable-prefix-of-copy-destination-changed"
+	}
+	return "ok"
 }
